@@ -210,7 +210,7 @@ def check_ctor_dtype_precedence(ctx: Ctx, rule="REJECT"):
     adds = [s for s in fv.statements() for c in ast.walk(s) if isinstance(c, ast.Call) and isinstance(c.func, ast.Attribute) and c.func.attr in ("extend", "append")
             and U(c.func.value) in ("self", "super()")]
     stores = [s for s in fv.statements() if isinstance(s, (ast.Assign, ast.AnnAssign)) and U(s.targets[0] if isinstance(s, ast.Assign) else s.target) == "self.dtype"
-              and getattr(s, "value", None) is not None and "dtype" in names_in(fv.expand(s.value, s, allow_mutated=True))]
+              and getattr(s, "value", None) is not None and any(n_ == "dtype" or n_.startswith("dtype_") for n_ in names_in(fv.expand(s.value, s, allow_mutated=True)))]
     if not adds or not stores:
         ctx.undecided(rule, q + ":ctor-dtype", fi, "stores of self.dtype / member insertion not found")
         return 0
@@ -574,4 +574,114 @@ def check_copy_filter_strict(ctx: Ctx, rule="COPYALL"):
     ok = (isinstance(c.ops[0], ast.Gt) and txt.endswith(">min_radius")) or (isinstance(c.ops[0], ast.Lt) and txt.startswith("min_radius<"))
     ctx.decide(ok, rule, q + ":strict", (fi, c), "droplets with exactly min_radius are removed (radius > min_radius is kept)",
                f"`{U(c)}` keeps droplets whose radius equals min_radius: copy(min_radius=0) is documented to drop vanished droplets, the copy differs from the list model [d for d in e if d.radius > min_radius]")
+    return 1
+
+
+# -------------------------------------------------------------------------------------------------- round 10
+def check_writers_total(ctx: Ctx, quals, rule="IOAGREE"):
+    """to_file replaces the target on every path: a return before the file is opened leaves an older file in place (or none),
+    and what is read back is not what was 'written'"""
+    m = ctx.model
+    n = 0
+    for q in quals:
+        if not m.has_func(q):
+            continue
+        fi = m.func(q)
+        fv = view(m, fi)
+        opens = [s for s in fv.statements() for c in ast.walk(s) if isinstance(c, ast.Call) and (dotted(c.func) or "").split(".")[-1] == "File" and len(c.args) >= 2
+                 and isinstance(c.args[1], ast.Constant) and c.args[1].value == "w"]
+        if not opens:
+            continue
+        rets = [r.stmt for r in fv.return_nodes() if isinstance(r.stmt, ast.Return)]
+        early = [r for r in rets if not any(fv.dominates(o, r) for o in opens)]
+        n += 1
+        ctx.decide(not early, rule, f"{q}:total", (fi, early[0]) if early else fi, "every path through the writer opens (truncates) the target file",
+                   "the writer can return without opening the target file: an empty collection is reported as written while the file keeps its old content (or does not exist), so it reads back as "
+                   "something else")
+    return n
+
+
+def check_nd_factory_decorators(ctx: Ctx, rule="FORMULA"):
+    """the inner implementations of the dimension-generic converter factories are plain functions that numba may inline
+    (register_jitable): called from Python they are evaluated by numpy for any argument type.  A jit-compiled inner function is
+    typed by numba — its dimension branches must unify, integer arguments are int64 (arrays fail to type, large ints wrap)."""
+    m = ctx.model
+    decs = {}
+    for fi in m.all_functions():
+        if fi.module.name == "droplets.tools.spherical" and fi.parent is not None and fi.parent.name.endswith("_nd_compiled") and fi.parent.name.startswith("make_"):
+            decs[fi.parent.name] = (fi, sorted(d.split(".")[-1] for d in fi.decorators))
+    if len(decs) < 2:
+        return 0
+    n = 0
+    for name, (fi, d) in sorted(decs.items()):
+        n += 1
+        ctx.decide("jit" not in d and "njit" not in d, rule, f"droplets.tools.spherical.{name}:decorator", fi, "inner implementation is register_jitable (plain numpy when called from Python)",
+                   f"the inner implementation of {name} is compiled with @{'/'.join(d)}: from Python it no longer evaluates the closed form with numpy — integer arrays fail to type (the dimension "
+                   "branches do not unify) and large integer radii wrap around in int64, while the sibling variants and the closed form accept them")
+    return n
+
+
+def check_sigma_float(ctx: Ctx, rule="PASS"):
+    """the smoothing width reaches SmoothData1D as a float: it computes sigma**-2, which raises for numpy integer scalars"""
+    m = ctx.model
+    q = f"{IMG}.get_structure_factor"
+    fi = m.func(q)
+    fv = view(m, fi)
+    calls = [c for c in fv.calls() if (dotted(c.func) or "").split(".")[-1] == "SmoothData1D"]
+    if not calls:
+        ctx.undecided(rule, q + ":sigma-float", fi, "SmoothData1D call not found")
+        return 0
+    bad = None
+    for c in calls:
+        sg = kwarg(c, "sigma") or (c.args[2] if len(c.args) > 2 else None)
+        if sg is None:
+            continue
+        for _dec, v in value_cases(fv, c, sg):
+            # the caller's own value must pass through float(); values computed here (k_max / 128) are floats already
+            if isinstance(v, ast.Name) and v.id in fi.all_params:
+                bad = bad or c
+    ctx.decide(bad is None, rule, q + ":sigma-float", (fi, bad) if bad is not None else fi, "a width given by the caller is converted to float before it is used as kernel width",
+               "the smoothing width given by the caller reaches SmoothData1D unconverted: for a numpy integer width `sigma**-2` raises ('Integers to negative integer powers are not allowed'), so the "
+               "smoothed structure factor at the requested wave numbers is not returned")
+    return 1
+
+
+def check_single_result(ctx: Ctx, rule="VOLUME"):
+    """droplet counting returns (volume per droplet)^(1/d) for every count: no second return in that branch"""
+    m = ctx.model
+    q = f"{IMG}.get_length_scale"
+    fi = m.func(q)
+    fv = view(m, fi)
+    loc = [s for s in fv.statements() for c in ast.walk(s) if isinstance(c, ast.Call) and (dotted(c.func) or "").split(".")[-1] == "locate_droplets"]
+    if not loc:
+        ctx.undecided(rule, q + ":every-count", fi, "locate_droplets call not found")
+        return 0
+    from .refine import _reaches
+
+    after = [r.stmt for r in fv.return_nodes() if isinstance(r.stmt, ast.Return) and r.stmt.value is not None and _reaches(fv, loc[0], r.stmt)]
+    const = [r for r in after if isinstance(r.value, (ast.Constant, ast.Attribute)) or U(r.value) in ("math.nan", "np.nan", "float('nan')", "np.inf", "math.inf")]
+    ctx.decide(not const, rule, q + ":every-count", (fi, const[0]) if const else fi, "the droplet count always enters the returned length scale",
+               f"`return {U(const[0].value) if const else ''}` answers some droplet counts with a constant: a field with a single droplet has the length scale (box volume)^(1/d), a constant or NaN is "
+               "not covariant with the grid")
+    return 1
+
+
+def check_popped_default(ctx: Ctx, qual, key, rule="NONETEST"):
+    """an option documented as `None = automatic` is replaced by its default when it *is None*, not only when it is absent"""
+    m = ctx.model
+    fi = m.func(qual)
+    fv = view(m, fi)
+    pops = [s for s in fv.statements() if isinstance(s, ast.Assign) and isinstance(s.value, ast.Call) and isinstance(s.value.func, ast.Attribute) and s.value.func.attr == "pop"
+            and s.value.args and isinstance(s.value.args[0], ast.Constant) and s.value.args[0].value == key]
+    if not pops:
+        ctx.undecided(rule, f"{qual}:{key}:none-default", fi, f"kwargs.pop({key!r}) not found")
+        return 0
+    s = pops[0]
+    name = U(s.targets[0])
+    tested = any(isinstance(c, ast.Compare) and U(c.left) == name and len(c.ops) == 1 and isinstance(c.ops[0], (ast.Is, ast.IsNot)) and isinstance(c.comparators[0], ast.Constant)
+                 and c.comparators[0].value is None for c in ast.walk(fi.node))
+    dflt = s.value.args[1] if len(s.value.args) > 1 else None
+    none_default = dflt is None or (isinstance(dflt, ast.Constant) and dflt.value is None)
+    ctx.decide(tested, rule, f"{qual}:{key}:none-default", (fi, s), f"`{name} is None` selects the automatic value",
+               f"`{U(s)[:70]}` applies the automatic value only when the option is absent{'' if none_default else ' (pop default)'}: an explicit {key}=None — documented as automatic — reaches the analysis as None")
     return 1
